@@ -53,6 +53,8 @@ TF(b, f)    == [t |-> "tryfin", b |-> b, f |-> f]       \* try: b  finally: f
 TE(b, e, h) == [t |-> "tryexc", b |-> b, e |-> e, h |-> h]  \* try: b  except e: h
 Loop(n, b)  == [t |-> "loop", n |-> n, b |-> b]         \* for _ in range(n): b
 YF(g)       == [t |-> "yf", g |-> g]                    \* x = yield from Subs[g]
+YI(k, n)    == [t |-> "yi", k |-> k, n |-> n]           \* x = yield from <plain iterator over 1..n WITHOUT send/throw/close>
+                                                        \*   k = "list": iter([1, .., n]);  k = "cls": a class with only __iter__/__next__
 Rr          == [t |-> "reraise"]                        \* bare `raise` (re-raise the exception being handled)
 LH          == [t |-> "loghexc"]                        \* L.append(code of type(sys.exc_info()[1])): the exception being handled
 Re(k)       == [t |-> "reenter", k |-> k]               \* resume self while running: ValueError -> L.append(k)
@@ -67,7 +69,8 @@ SubBodies == <<
   (* 5 *) TE(Sq(<<Y(1), Y(2)>>), "GeneratorExit", Sq(<<Lg(141), Ret(5)>>)),
   (* 6 *) TF(Sq(<<Y(1), Y(2)>>), Rz("KeyError")),
   (* 7 *) TE(Sq(<<Y(1), Y(2)>>), "GeneratorExit",
-             Sq(<<Lg(181), TE(TF(Y(8), Lg(182)), "GeneratorExit", Sq(<<Lg(183), TF(Y(9), Lg(184)), Lg(185)>>))>>))
+             Sq(<<Lg(181), TE(TF(Y(8), Lg(182)), "GeneratorExit", Sq(<<Lg(183), TF(Y(9), Lg(184)), Lg(185)>>))>>)),
+  (* 8 *) Sq(<<TE(YI("list", 2), "KeyError", Sq(<<Lg(230), Y(56)>>)), LX, Ret(9)>>)
 >>
 Subs == <<
   [name |-> "s1c", kind |-> "c", b |-> 1], [name |-> "s1p", kind |-> "p", b |-> 1],
@@ -76,7 +79,8 @@ Subs == <<
   [name |-> "s4c", kind |-> "c", b |-> 4],
   [name |-> "s5c", kind |-> "c", b |-> 5], [name |-> "s5p", kind |-> "p", b |-> 5],
   [name |-> "s6c", kind |-> "c", b |-> 6],
-  [name |-> "s7c", kind |-> "c", b |-> 7], [name |-> "s7p", kind |-> "p", b |-> 7]
+  [name |-> "s7c", kind |-> "c", b |-> 7], [name |-> "s7p", kind |-> "p", b |-> 7],
+  [name |-> "s8c", kind |-> "c", b |-> 8]
 >>
 
 G(name, b) == [name |-> name, kind |-> "gen", b |-> b]
@@ -116,7 +120,12 @@ Bodies == <<
                                     Sq(<<Lg(200), Y(5), LH, TE(Y(6), "KeyError", Sq(<<LH, Y(7), LH>>)), LH, Rr>>)), LH, Y(3)>>)),
   (* 29 *) C("co_plain", "c", Sq(<<R(1), LX, R(2), RetX>>)),
   (* 30 *) C("co_tryfin", "p", Sq(<<TF(Sq(<<Y(1), TE(Y(2), "ValueError", Sq(<<Lg(160), Y(5)>>))>>), Lg(161)), Ret(9)>>)),
-  (* 31 *) C("co_ignore_ge", "c", Sq(<<TE(Sq(<<Y(1), Y(2)>>), "GeneratorExit", Sq(<<Lg(170), Y(8)>>)), Re(171), Rz("StopIteration")>>))
+  (* 31 *) C("co_ignore_ge", "c", Sq(<<TE(Sq(<<Y(1), Y(2)>>), "GeneratorExit", Sq(<<Lg(170), Y(8)>>)), Re(171), Rz("StopIteration")>>)),
+  \* delegation to plain iterators (55 = "handled", 66 = "after")
+  (* 32 *) G("yi_list",    Sq(<<TE(YI("list", 3), "ValueError", Sq(<<Lg(210), Y(55)>>)), LX, Y(66)>>)),
+  (* 33 *) G("yi_cls",     Sq(<<TE(YI("cls", 3), "ValueError", Sq(<<Lg(210), Y(55)>>)), LX, Y(66)>>)),
+  (* 34 *) G("yi_fin_ret", TF(Sq(<<TE(YI("cls", 2), "Exception", Sq(<<Lg(220), R(55), LX>>)), LX, Y(66), Ret(8)>>), Lg(221))),
+  (* 35 *) G("yf_yi",      Sq(<<TE(YF(13), "ValueError", Sq(<<Lg(231), Y(57)>>)), LX, Y(7)>>))
 >>
 
 ---------------------------------------------------------------------------
@@ -172,7 +181,7 @@ Yield(val, st, d) ==
             Res([st EXCEPT !.closing = @ \ {d}, !.fin = d], Raise("GeneratorExit"))
   ELSE Resume([st EXCEPT !.obs = Append(@, A("y", val, ""))], d)
 
-RECURSIVE Exec(_, _, _), ExecSeq(_, _, _), ExecLoop(_, _, _, _)
+RECURSIVE Exec(_, _, _), ExecSeq(_, _, _), ExecLoop(_, _, _, _), ExecYI(_, _, _, _)
 
 ExecSeq(ss, st, d) ==
   IF ss = <<>> THEN Res(st, Norm)
@@ -204,6 +213,19 @@ ExecYF(g, st, d) ==
             [] sig.t = "ret"   -> Res([back(s1) EXCEPT !.x = sig.v], Norm)
             [] sig.t = "raise" -> Res(back(s1), Raise(Pep479(sig.e)))
 
+(* x = yield from it, `it` a plain iterator over 1..n that has only __next__ (PEP 380):      *)
+(* the values are yielded by the frame itself (no inner frame, nothing to close);          *)
+(* next / send(None) -> next(it); send(v) -> it.send is missing: AttributeError at the     *)
+(* `yield from`; throw(E) / close() -> no throw() / close(): the delegation is abandoned   *)
+(* and E / GeneratorExit is raised at the `yield from` (Resume already does that);         *)
+(* exhaustion -> the expression is None.                                                   *)
+ExecYI(i, n, st, d) ==
+  IF i > n THEN Res([st EXCEPT !.x = NONE], Norm)
+  ELSE LET r == Yield(i, st, d)
+       IN IF r.sig.t # "norm" THEN r
+          ELSE IF r.st.sent # NONE THEN Res(r.st, Raise("AttributeError"))
+          ELSE ExecYI(i + 1, n, r.st, d)
+
 Exec(s, st, d) ==
   CASE s.t = "yield"  -> Yield(s.v, st, d)
     [] s.t = "recv"   -> LET r == Yield(s.v, st, d)
@@ -231,6 +253,7 @@ Exec(s, st, d) ==
                             ELSE LET f == Exec(s.f, [r.st EXCEPT !.fins = @ + 1], d)
                                  IN IF f.sig.t = "norm" THEN Res(f.st, r.sig) ELSE f
     [] s.t = "yf"     -> ExecYF(s.g, st, d)
+    [] s.t = "yi"     -> ExecYI(1, s.n, st, d)
 
 ---------------------------------------------------------------------------
 (* the object as a whole *)
